@@ -8,6 +8,7 @@ realised on real containers / models of every concrete span type by harness/repl
 from __future__ import annotations
 
 import json
+import time
 from typing import Any, Dict, List
 
 from .. import core
@@ -44,7 +45,7 @@ def slices(quick: bool) -> Dict[str, Dict[str, Any]]:
         'reads': dict(minlen=1, maxlen=n, maxw=1, first='full', wrops=['setattr', 'setitem'], wrsteps=[1], rdsteps=[0, 1, 2, 3],
                       fullreads=True),
         # every single write of the full alphabet on every span
-        'write1': dict(minlen=1, maxlen=n, maxw=1, first='full', wrops=ALL_OPS, wrsteps=[1, 2, 3] if quick else [0, 1, 2, 3], rdsteps=[1],
+        'write1': dict(minlen=1, maxlen=n, maxw=1, first='full', wrops=ALL_OPS, wrsteps=[0, 1, 2, 3], rdsteps=[1],
                        fullreads=False, slnames=[1] if quick else [1, 2]),
         # two writes: one representative per access path, then the full alphabet
         'write2': dict(minlen=2, maxlen=2 if quick else 3, maxw=2, first='small', wrops=ALL_OPS,
@@ -84,8 +85,9 @@ def check_and_emit(ctx: core.Ctx, name: str, params: Dict[str, Any], nshards: in
 SOLVER_PREFIXES = ('solve_period', 'solve-', 'solve[')
 
 
-def replay_records(ctx: core.Ctx, records: List[Dict[str, Any]], *, all_types: bool, what: str) -> None:
-    payloads = [{'records': ch, 'all_types': all_types, 'seed': ctx.seed} for ch in core.chunks(records, core.NCPU * 2)]
+def replay_records(ctx: core.Ctx, records: List[Dict[str, Any]], *, all_types: bool, what: str, all_classes: bool = True) -> None:
+    payloads = [{'records': ch, 'all_types': all_types, 'all_classes': all_classes, 'seed': ctx.seed}
+                for ch in core.chunks(records, core.NCPU * 2)]
     outs = core.run_workers('harness.replay_span', payloads)
     n = sum(o['n'] for o in outs)
     ctx.evaluations += n
@@ -138,8 +140,11 @@ def run(ctx: core.Ctx) -> None:
     core.sany('LabelAccessMC')
     sl = slices(quick)
     for name in ('reads', 'write1', 'write2'):  # one after the other: each slice already uses every core
+        t0 = time.time()
         recs = check_and_emit(ctx, name, sl[name])
-        replay_records(ctx, recs, all_types=(name == 'reads' or not quick), what=name)
+        t1 = time.time()
+        replay_records(ctx, recs, all_types=(name == 'reads' or not quick), what=name, all_classes=(name != 'write2'))
+        ctx.extra.setdefault('phase_wall_s', {})[name] = {'tlc': round(t1 - t0, 1), 'replay': round(time.time() - t1, 1)}
     ctx.exhaustive = True
     ctx.extra['bound'] = {'span_length': n, 'label_ids': 5, 'steps': [0, 1, 2, 3], 'writes_per_history': 2,
                           'two_write_span_length': 2 if quick else 3}
